@@ -395,7 +395,7 @@ def run(ctx: Ctx):
     for p in hv.VIEW_PROPS:
         traces += keepref_histories(p, rng, 6 if q else 200)
     traces += scalar_traces(rng)
-    for _ in range(190 if q else 5000):
+    for _ in range(170 if q else 5000):
         traces.append(random_walk(rng, rng.randint(6, 14)))
     ctx.notes["histories"] = len(traces)
     lines = judge_traces(ctx, traces)
